@@ -15,7 +15,7 @@ NOT_PROVED = ["sign of products v[i-1]*v[i] that underflow in binary64 (not gene
               "C12.f unconditional 'tol>0 result is a subsequence of the tol=0 result' is false (F12-2); proved: sublist of the peak list, and the subsequence claim under three checkable conditions (boundaries of the tol run included in those of the 0 run; first peak of every excursion reaches tol if any does; every later peak reaches tol => equality) - sufficient, not necessary (Props/C12TolSublist)",
               "proved instead: sublist of the peak list"]
 EXHAUSTIVE = True
-PROP_MODULES = ['C12', 'C12Discharged', 'C12Gen', 'C12ZeroPeak', 'C12TolSublist', 'C12GenZeroPeak']
+PROP_MODULES = ['C12', 'C12Discharged', 'C12Repair', 'C12Gen', 'C12ZeroPeak', 'C12TolSublist', 'C12GenZeroPeak']
 
 
 def spec_zc(v, keep):
@@ -270,7 +270,7 @@ def _m_f12_3(f):
             and f['facts'].get('bad') == 'strictly ascending')
 
 
-KNOWN_MATCHERS = {'F12-2': _m_f12_2, 'F12-3': _m_f12_3}
+KNOWN_MATCHERS = {'F12-2': _m_f12_2}     # F12-3 is fixed (95bbcf0): no matcher, a return is a violation
 
 
 def known_witness(fid):
@@ -280,8 +280,6 @@ def known_witness(fid):
         s0 = list(pc.get_switched_peak_array_indices(v))
         s1 = list(pc.get_switched_peak_array_indices(v, tol=0.5))
         return not is_subseq(s1, s0)
-    if fid == 'F12-3':
-        return list(map(int, pc.get_switched_peak_array_indices(np.zeros(3)))) == [0, 0]
     return True
 
 
